@@ -31,7 +31,9 @@ def junk_lookup(run, model, rng):
     obmc = rng.choice([0, 3, 77])
     tdata = dirgen.set_ids(target[1], obmc=obmc)
     tname = "%s_%08X" % (rng.choice(["b", "m", "y"]), target[2]["eid"])
-    files = [f for f in files if f is not target and int.from_bytes(f[1][28:32], "big") != obmc] + [(tname, tdata, target[2])]
+    # (no other file may carry the target's ids: its BMC id, or - in its name - its entry id; the look-up takes the first it meets)
+    files = [f for f in files if f is not target and int.from_bytes(f[1][28:32], "big") != obmc
+             and ("%08X" % target[2]["eid"]) not in f[0].upper()] + [(tname, tdata, target[2])]
     shorts = [b"", b"P", b"PH\0\x30\1", tdata[:20], tdata[:47], bytes(7)]
     for k in range(rng.randrange(1, 4)):
         files.append((rng.choice(["0", "a", "n", "zz"]) + "_short%d" % k, rng.choice(shorts), dict(kind="junk")))
